@@ -382,3 +382,5 @@ def r8_5(cx):
 
 
 RULES = [('R8.1', r8_1), ('R8.2', r8_2), ('R8.3', r8_3), ('R8.4', r8_4), ('R8.5', r8_5)]
+RULES.append(('R8.6', scan_rule(('hcobs::stream_reader::',))))
+FLOORS['R8.6'] = 1
